@@ -51,6 +51,34 @@ def _decode_case(args):
                     node = parse_sql('SELECT 1 FROM %s' % text, d).from_table
                 elif cname == 'alias':
                     node = parse_sql('SELECT 1 AS %s' % text, d).targets[0].alias
+                elif cname == 'derived-collist':
+                    if d != 'mindsdb':
+                        continue
+                    node = parse_sql('SELECT * FROM (SELECT a, b FROM t) AS q (%s, z)' % text, d).from_table.targets[0].alias
+                elif cname == 'insert-column':
+                    v = parse_sql('INSERT INTO t (%s) VALUES (1)' % text, d).columns[0].name
+                    out.append((d, cname, 'ok', 'ident', [str(v)] if not hasattr(v, 'parts') else [str(x) for x in v.parts]))
+                    continue
+                elif cname == 'update-column':
+                    ks = list(parse_sql('UPDATE t SET %s = 1' % text, d).update_columns.keys())
+                    out.append((d, cname, 'ok', 'ident', [str(k) for k in ks]))
+                    continue
+                elif cname == 'cte-name':
+                    node = parse_sql('WITH %s AS (SELECT 1) SELECT 2' % text, d).cte[0].name
+                elif cname == 'table-alias':
+                    node = parse_sql('SELECT 1 FROM t AS %s' % text, d).from_table.alias
+                elif cname == 'order-by':
+                    node = parse_sql('SELECT 1 FROM t ORDER BY %s' % text, d).order_by[0].field
+                elif cname == 'function-arg':
+                    node = parse_sql('SELECT f(1, %s) FROM t' % text, d).targets[0].args[1]
+                elif cname == 'insert-table':
+                    node = parse_sql('INSERT INTO %s (a) VALUES (1)' % text, d).table
+                elif cname == 'update-table':
+                    node = parse_sql('UPDATE %s SET a = 1' % text, d).table
+                elif cname == 'delete-table':
+                    node = parse_sql('DELETE FROM %s WHERE a = 1' % text, d).table
+                elif cname == 'join-table':
+                    node = parse_sql('SELECT 1 FROM t JOIN %s ON 1 = 1' % text, d).from_table.right
                 elif cname == 'setvar':
                     node = parse_sql('SET %s = 1' % text, d).name
                 elif cname == 'setvalue':
@@ -164,7 +192,9 @@ def run(ctx):
                               {'text': text, 'dialect': d, 'context': cname, 'expected': exp, 'got': got,
                                'units': ks}, pin=('%s|%s|%s' % (text, d, cname), got))
     # ---------------- decode: identifier paths
-    work = [('ID', s_of(t), [s_of(p) for p in parts], ['column', 'table'] + (['alias'] if len(parts) == 1 else []))
+    work = [('ID', s_of(t), [s_of(p) for p in parts], ['column', 'table', 'order-by', 'function-arg', 'insert-table', 'update-table',
+                                                         'delete-table', 'join-table'] +
+             (['alias', 'derived-collist', 'insert-column', 'update-column', 'cte-name', 'table-alias'] if len(parts) == 1 else []))
             for forms, t, parts in ids]
     res = pmap(_decode_case, work, chunksize=64)
     for (forms, t, parts), (_, text, exp, _c), rs in zip(ids, work, res):
@@ -174,7 +204,7 @@ def run(ctx):
                 continue
             n_eval += 1
             if got != exp:
-                ctx.violation('decode-path:%s' % d,
+                ctx.violation('decode-path:%s' % d if cname in ('column', 'table', 'alias') else 'decode-path:%s:%s' % (d, cname),
                               'identifier parts differ from the written path (case, splitting or characters)',
                               {'text': text, 'dialect': d, 'context': cname, 'expected': exp, 'got': got},
                               pin=('%s|%s|%s' % (text, d, cname), got))
